@@ -143,14 +143,21 @@ func VH_C16_PooledReader(L, staleKind int) {
 	vhReach("c16-pooled-reader")
 }
 
-func VH_C16_PooledWriter(L int) {
+func VH_C16_PooledWriter(L, staleFramed, unframed int) {
+	// the pooled writer comes from a stream of a codec value with framing `staleFramed`; the new stream is opened
+	// by a codec value whose Framing is Framed (unframed=0) or Unframed (unframed=1): the pool is package level,
+	// the output must follow the codec that opens the stream
 	var junk bytes.Buffer
-	stale := &xerialWriter{writer: &junk, framed: true, nbytes: int64(vhIntRange("stale_nbytes", 0, 1000))}
+	stale := &xerialWriter{writer: &junk, framed: staleFramed == 1, nbytes: int64(vhIntRange("stale_nbytes", 0, 1000))}
 	stale.input = append(make([]byte, 0, 1030), vhByte("stale_input"), vhByte("stale_input"))
 	stale.output = append(make([]byte, 0, 64), 5)
 	writerPool.Put(stale)
 	var sink bytes.Buffer
-	wc := (&Codec{Framing: Framed}).NewWriter(&sink)
+	codec := &Codec{Framing: Framed}
+	if unframed == 1 {
+		codec.Framing = Unframed
+	}
+	wc := codec.NewWriter(&sink)
 	wr := wc.(*writer)
 	vhAssert(wr.xerialWriter == stale, "pooled-object-reused")
 	wr.xerialWriter.encode = nil
@@ -158,9 +165,13 @@ func VH_C16_PooledWriter(L int) {
 	n, err := wc.Write(payload)
 	cerr := wc.Close()
 	vhAssert(vhAll(n == L, err == nil, cerr == nil), "write-and-close-ok")
-	got, _, ok := vhParseXerial(sink.Bytes())
-	vhAssert(ok, "header-written-once-at-the-start-of-the-new-stream")
-	vhAssert(vhBytesEq(got, payload), "nothing-of-the-previous-stream-leaks")
+	if unframed == 1 {
+		vhAssert(vhBytesEq(sink.Bytes(), payload), "unframed-codec-writes-the-bare-block")
+	} else {
+		got, _, ok := vhParseXerial(sink.Bytes())
+		vhAssert(ok, "header-written-once-at-the-start-of-the-new-stream")
+		vhAssert(vhBytesEq(got, payload), "nothing-of-the-previous-stream-leaks")
+	}
 	vhAssert(junk.Len() == 0, "previous-sink-untouched")
 	vhReach("c16-pooled-writer")
 }
